@@ -96,6 +96,10 @@ def conn_view(toks):
             emitted[sel].append(int(x.split()[1], 16))
         elif x.startswith("B "):
             cut[sel] = True
+        elif x.startswith("BB "):
+            cut[sel] = True
+            _, _, n, h = x.split()
+            reqs += [((int(h, 16) + j) & 0xffffffff, cur) for j in range(int(n))]
     return reqs, emitted, cut
 
 
@@ -150,7 +154,7 @@ def multi_schedule(r, adversarial=False):
     return toks
 
 
-ARITY = {"R": 1, "G": 1, "W": 0, "WE": 0, "D": 1, "T": 1, "CA": 0, "CF": 0, "SEL": 1, "P": 1, "PS": 2, "PG": 3, "PT": 2, "B": 1}
+ARITY = {"BB": 3, "R": 1, "G": 1, "W": 0, "WE": 0, "D": 1, "T": 1, "CA": 0, "CF": 0, "SEL": 1, "P": 1, "PS": 2, "PG": 3, "PT": 2, "B": 1}
 
 
 def regress_schedules(pid):
@@ -178,21 +182,7 @@ def judge_safety(chk, pid, case, toks, im):
         return False, None
     outs, reader = p
     # which connection each request was sent on and each answer was emitted on (events CA / SEL; one connection otherwise)
-    reqs, emitted = [], {0: []}
-    cur = sel = 0
-    for x in toks:
-        if x == "CA":
-            cur += 1
-            sel = cur
-            emitted[cur] = []
-        elif x.startswith("SEL "):
-            c = int(x.split()[1])
-            if c <= cur:
-                sel = c
-        elif x.startswith("R "):
-            reqs.append((int(x.split()[1], 16), cur))
-        elif x.startswith(("P ", "PS ", "PG ")):
-            emitted[sel].append(int(x.split()[1], 16))
+    reqs, emitted, _ = conn_view(toks)
     if len(outs) != len(reqs):
         chk.violation("number of futures differs from the number of sends", dict(case=case, impl=short(im)))
         return False, None
@@ -442,6 +432,19 @@ def check_C12(chk, tier, seed):
         r = rng.fork(f"m{k}")
         toks = multi_schedule(r, adversarial=True)
         cases.append((line(toks), toks, "multi"))
+    # the reader's shutdown racing a burst of sends issued from one task without a pause (the runtime decides where the
+    # sender yields: after 64, 128, ... operations): every send must fail or hand out a future that fails
+    for k in range(24 if tier == "quick" else 400):
+        r = rng.fork(f"b{k}")
+        toks = []
+        for i in range(r.range(0, 3)):
+            toks += [f"R {hx(0x40 + i)}", "W"]
+            if r.chance(1, 2):
+                toks.append(f"P {hx(0x40 + i)}")
+        for _ in range(r.range(0, 4)):
+            toks.append(f"T {hx(r.choice([0, 1, 1000]))}")            # shifts where the cooperative budget runs out
+        toks.append(f"BB {r.choice(['eof', 'reset', 'garbage'])} {r.choice([70, 130, 200, 300])} {hx(0x1000)}")
+        cases.append((line(toks), toks, "burst"))
     lines = [c[0] for c in cases]
     impl, model = eng.run(lines)
     from checks_client import judge_safety as js
@@ -460,6 +463,14 @@ def check_C12(chk, tier, seed):
             reqs_c, _, cut_c = conn_view(toks)
             rds = readers_of(im)
             hung = [k2 for k2, ((h, cn), o) in enumerate(zip(reqs_c, outs)) if o == "PENDING" and cn < len(rds) and rds[cn] == "stopped"]
+            if kind == "burst":
+                has_bad = False
+                late = None
+                if "PENDING" in outs:
+                    ok = False
+                    chk.violation(f"response future {outs.index('PENDING')} of a burst of sends issued while the reader was shutting down is still pending: "
+                                  "the send was accepted after the waiters had been released", dict(case=c, impl=short(im)))
+                mo = im         # which sends see the closed flag and which are registered first is decided by the scheduler: not compared
             if kind == "multi":
                 has_bad = False
                 if hung:
@@ -502,6 +513,6 @@ def check_C12(chk, tier, seed):
     reconn_cases(chk, eng, "C12", ["overlap", "failed"], 2 if tier == "quick" else 10)
     chk.rule = ("1..4 outstanding requests x every subset of answers already delivered x {EOF, reset, undecodable octets, unknown AVP}; the answer stream cut at "
                 f"EVERY octet offset inside a pending answer; {nrand} random histories with repeated ids (superseded waiters), unmatched answers, answers racing the "
-                "write, sends attempted after the reader stopped, several connections of one client object (connect() again, also failing), sends whose write fails, futures dropped by the caller, idle periods and split answers with gaps in "
+                "write, sends attempted after the reader stopped, bursts of 70-300 sends racing the reader's shutdown, several connections of one client object (connect() again, also failing), sends whose write fails, futures dropped by the caller, idle periods and split answers with gaps in "
                 "virtual time; hangs = futures still pending once the paused runtime is idle; reader running to quiescence after every event")
     chk.assumptions = ["partial as C11; 'eventually' = by the time the finite peer script has been played and the runtime is idle"]
